@@ -208,6 +208,17 @@ def run(repo, chk):
     ok = len(rets) == 1 and isinstance(rets[0].value, ast.Call) and norm(rets[0].value.func) in ("type(self)", "HandlerCollection") \
         and not is_name(rets[0].value, "self")
     chk.ob("R08.1", "overlay.HandlerCollection.plus:returns-new-collection", ok, pl.where, "plus builds a new collection (the current one stays as other contexts see it)")
+    # the installed variant follows every change of the shared counters (no "nothing changed" short cut on stale bookkeeping)
+    from ..cfg import CFG as _CFG
+    for m_ in ("push", "pop"):
+        f_ = repo.func(f"transform.SyncedStackedTransforms.{m_}")
+        g_ = _CFG(f_.node, lambda s_: False)
+        sup_ = g_.find(lambda n: n.kind == "stmt" and f"super().{m_}(" in n.text())
+        app_ = g_.find(lambda n: n.kind == "stmt" and "self._apply(" in n.text())
+        ok_ = bool(sup_) and bool(app_) and all(not g_.path_exists(s_, g_.exit, avoid=app_, labels=("n", "t", "f")) for s_ in sup_)
+        chk.ob("R08.1", f"transform.SyncedStackedTransforms.{m_}:variant-reinstalled-after-every-count-change", ok_, f_.where,
+               f"every normal path of {m_}() from the counter update to the exit passes self._apply(...): which variant runs is recomputed from the counters each time, "
+               "whatever other threads' probes did to them in between")
     from .shared import activation_integrity_obligations, plus_obligations
     activation_integrity_obligations(repo, chk, "R08.1", "the probes another thread holds on the same functions")
     plus_obligations(repo, chk, "R08.1", "the collection another thread or context is using is never changed or handed out twice")
